@@ -6,58 +6,58 @@ CLAIMED = {
  'C01': dict(technique='partial evaluation of the code generator (ast interpreter, abstract children) + explicit-state provenance dataflow over every emitted skeleton; assume/guarantee induction over expression trees; translator literal mapping by path-representative evaluation',
              text='For all grammars over the listed constructs (structural induction on per-class summaries): failed attempts leave no trace in the position register, the static flags are sound, register protocol, and the PEG position/value-flow table hold for every configuration of every class in both calling conventions. Decides the structural clause, not parse results on inputs.',
              note='Assumes children obey their summaries (induction hypothesis), CPython semantics of emitted statements, outsourcer rendering. Not decided: regex engine behaviour, value equality on inputs, termination.', ref='3.1, 4 C01'),
- 'C02': dict(technique='partial evaluation of OperatorTable._compile + provenance dataflow with ghost state over the emitted shunting-yard loop; finite evaluation of the emitted precedence/associativity decision chain; placement rule for the non-associativity test',
+ 'C02': dict(technique='partial evaluation of OperatorTable._compile + provenance dataflow with ghost state over the emitted shunting-yard loop (operator pending, ended by restore, prefix operator committed before the final truncation); finite evaluation of the emitted precedence/associativity decision chain; placement rule for the non-associativity test',
              text='For every table shape x child flag state x convention: the table ends only after an operand or postfix operator, restores of the position saved before a consumed operator are terminal, no trace of failed attempts, sound flags; associativity ids of create() agree with the constants tested in the emitted loop and the decision is reduce/end/shift as precedence dictates; the conflict test sits inside the reduction loop. Structural clauses only.',
              note='Not decided: that shunting-yard builds the unique precedence tree for arbitrary token sequences. Assumes operator expressions are not always-succeeding.', ref='4 C02'),
- 'C03': dict(technique='partial evaluation of List/Sep._compile for every bound spelling / option combination + provenance dataflow with ghost state (bound tests, separator seen, last appended); sibling comparison of int/str bound spellings; translator repeat mapping',
+ 'C03': dict(technique='partial evaluation of List/Sep._compile for every bound spelling / option combination + provenance dataflow with ghost state (bound tests, separator seen, last appended); ghost rule that kept separators and elements alternate; sibling comparison of int/str bound spellings; translator repeat mapping incl. zero and name bounds; atomicity of compound inline-Python bounds in the emitted length tests',
              text='Upper-bound test on every path from append to next attempt; lower-bound test guards success; trailing separator consumed iff allow_trailer; allow_empty/require_separator guard success; int/str spellings of bounds handled alike; G1-G3 so an incomplete repetition leaves no trace.',
              note='Assumes min_len <= max_len for symbolic bounds. Not decided: greediness on inputs, element values.', ref='4 C03'),
- 'C04': dict(technique='module-level partial evaluation of the translator on route grammars with ignore declarations + object-graph rule (every literal flagged) + request-order rule on the emitted start function + who-may-call rule + E1 literal/Skip skeleton specs',
+ 'C04': dict(technique='module-level partial evaluation of the translator on route grammars with ignore declarations + object-graph rule (every literal flagged) + request-order rule on the emitted start function + call-graph who-may-call rule + E1 literal/Skip skeleton specs; routes: named/anonymous/several ignore rules, lookaheads, class start (also with a leading constant member), sub-grammars with and without a start of their own',
              text='Structural half: every literal (also in ignored rules, template and keyword arguments, class members) skips after a match and only literals do; the start function first skips; the synthetic rule is Skip over exactly the ignored rules; the skip request is issued on the success path with the literal end; nobody else may skip.',
              note='Not decided: the second sentence of the property (lengthening an ignorable run changes no value). Known findings: inherited anonymous / combined ignore declarations.', ref='4 C04'),
- 'C05': dict(technique='E1 provenance rule on binders (Let, Seq names) + local-store rule + route rule on shadowing + who-reports rule for verbatim emission sites (free-variable protocol) + generated class table agreement',
+ 'C05': dict(technique='E1 provenance rule on binders (Let, Seq names) + local-store rule + structured liveness over skeletons (scratch locals live across a sub-expression are numbered by the builder) + route rules on shadowing, nested let scope and argument captures (free variables of skeleton objects vs. emitted _ParseFunction constructions) + marker-text rule for description text emitted verbatim (free-variable protocol) + flag soundness of Where/Apply + generated class table agreement',
              text='Bound names hold the value of their expression at every later child start, are plain locals of the rule frame, and are emitted as locals even when a rule has the same name; Where/Apply value flow; class field tables/ctor args/member kinds agree.',
              note='Not decided: what user Python computes. Known findings: inline Python, repeat counts and class fields are invisible to freevars().', ref='4 C05'),
- 'C06': dict(technique='def/call conformance over emitted route modules (both conventions): every request, _ParseFunction, literal wrapper resolved to its definition and compared in arity/keywords/prefix; hashability of memo-key displays; sibling and visitor-coverage rules; computed interception table',
+ 'C06': dict(technique='def/call conformance over emitted route modules (both conventions): every request, _ParseFunction, literal wrapper resolved to its definition and compared in arity/keywords/prefix; hashability of memo-key displays; argument-capture rule; adaptor rules on the runtime wrappers (path-based); sibling and visitor-coverage rules; computed interception table',
              text='Every way a template argument is packaged (literal, reference, local, compound with 0-3 captured names, keyword, inline Python, byte, nested call) reaches a callee that accepts exactly what it will be passed, in both conventions.',
              note='Not decided: equivalence with textual expansion on inputs; hashability of run-time argument values. Known findings: parameterised-rule entry, intercepted names.', ref='4 C06'),
- 'C07': dict(technique='symbolic path enumeration of the trampoline loop with role inference (request/stack/memo) + def-use rules + stack-top mirror invariant for loop-carried variables; leaf skeleton specs for request emission',
+ 'C07': dict(technique='symbolic path enumeration of the trampoline loop with role inference (request/stack/memo) + def-use rules + stack-top mirror invariant for loop-carried variables; call-key rules on routes (R(), q() on a parameter, alias rules request instead of calling); leaf skeleton specs for request emission. Refuses (exit 2) driver representations outside the covered family',
              text='Generators are created only initially and on a memo miss; completion stores the result under the request key from the stack top; hits replay the stored object; memo is one fresh local dict per call; CALL tag cannot be confused with a status. Checked on every emitted runtime variant and the copy in sourcer/parser.py.',
              note='Trusts CPython dict/tuple hashing. Not decided: running time.', ref='4 C07'),
- 'C08': dict(technique='entry-point conformance over emitted modules + path rules on driver exits and _finalize_parse_info + guarded-subscript rule + must-raise rule on generated error functions + constructor/raise-site agreement',
+ 'C08': dict(technique='entry-point conformance over emitted modules + path rules on driver exits and _finalize_parse_info + guarded-subscript rule + must-raise rule on generated error functions + constructor/raise-site agreement + bytes-safety rule (no mixing of the text with str constants on paths where it may be bytes) + sub-grammar import completeness',
              text='Every public entry point has (text, pos=0, fullparse=True) and tail-calls the driver; success goes through _finalize_parse_info, failure calls the error function which always raises ParseError; PartialParseError(nodes, position at pos, excerpt) exactly when fullparse and input remains, else the same value; table subscripts guarded.',
              note='Not decided: pos=k equals parsing text[k:] shifted. Known finding: entry point of parameterised rules.', ref='4 C08'),
- 'C09': dict(technique='symbolic path enumeration of _extract_excerpt + affine entailment (Fourier-Motzkin) of slice/caret obligations per regime; transformer rule on the line/column map; path rules on generated error functions; exhaustive ordering evaluation of Choice farthest-failure epilogue',
+ 'C09': dict(technique='symbolic path enumeration of _extract_excerpt + affine entailment (Fourier-Motzkin) of slice/caret obligations per regime; transformer rule on the line/column map + line-break vocabulary rule (disallowed splitlines/expandtabs, only the line feed singled out) + per-call tables rule; path rules on generated error functions; exhaustive ordering evaluation of Choice farthest-failure epilogue',
              text='Per regime: line start <= slice start <= pos < slice end <= line end and caret = (pos - slice start) + len(prefix); line/column tables count from (1,0) with the documented transitions; error functions report (None, None) exactly at end of input and the failure position otherwise; Choice reports the farthest failure.',
              note='Preconditions: text[pos] not a line break, 0 <= pos < len(text). Not decided: which position is "the first character no token can match".', ref='4 C09'),
- 'C10': dict(technique='E1 provenance rule on the span store of Seq-with-constructor + path rules on the conversion loop of _finalize_parse_info (iterates visit(nodes), inclusive end, one index per position, whole-text tables, guards) + who-may-write rule',
+ 'C10': dict(technique='E1 provenance rule on the span store of Seq-with-constructor + path rules on the conversion loop of _finalize_parse_info (iterates visit(nodes), inclusive end, one index per position, whole-text per-call tables, guards, raw spans converted once) + line/column map rules shared with C09 + identity de-duplication of visit + who-may-write rule',
              text='Recorded span = (entry position, success-exit position) on the new instance for every configuration; converted once for every instance reachable from the result in every emitted runtime variant.',
              note='Not decided: nesting/disjointness of spans on inputs.', ref='4 C10'),
- 'C11': dict(technique='def/call conformance, context wiring, free-name closure and optimisation-independence over every route module emitted in both conventions; flag-use, determinism rules on translator/grammar sources',
+ 'C11': dict(technique='def/call conformance, context wiring, free-name closure and optimisation-independence over every route module emitted in both conventions; def-use rule on include_source, determinism rules on translator/grammar sources; the shipped sourcer/parser.py is one of the analysed modules',
              text='The only variant-dependent input to emission (uses_context) is threaded consistently through every signature and call on every route; emitted modules are self-contained; include_source and run-dependent values do not reach the text (except the recorded anonymous-rule name).',
              note='Not decided: equality of results between variants on inputs.', ref='4 C11'),
- 'C13': dict(technique='emission of base / sub-grammar / third-level route modules + cross-module wiring rules (attributes read through _ctx by inherited code vs. assigned on the derived context; _super_ctx reads vs. parent context), lexical-super and late-binding rules, path rule on _install_module',
+ 'C13': dict(technique='emission of base / sub-grammar / third-level route modules + cross-module wiring rules (attributes read through _ctx by inherited code vs. assigned on the derived context; _super_ctx reads vs. parent context), lexical-super and late-binding rules (incl. context received as a parameter by every rule function and helper), inherited start and leading skip, parent objects only read (context and imported rule objects), path rule on _install_module',
              text='Non-local references are late-bound through _ctx (also rules passed as arguments), super is rooted at the module-global _super_ctx, contexts are completely wired at every level, the parent is only read, named modules are registered on every path.',
              note='Known findings: anonymous ignore inheritance; combined ignore declarations.', ref='4 C13'),
- 'C14': dict(technique='symbolic path enumeration of ParsedObject.__eq__/__hash__/_asdict/_replace/_hash + table agreement rules on node classes and generated classes + __getattr__ copy-safety rule',
+ 'C14': dict(technique='symbolic path enumeration of ParsedObject.__eq__/__hash__/_asdict/_replace/_hash + table agreement rules on node classes and generated classes (path-based stores, repr rendered parts) + __getattr__ copy-safety rule',
              text='Equality is class-test-then-fields over exactly _fields, hashing covers the same fields through a container-aware helper, neither reads metadata or identity; _replace constructs through the class; field tables, constructors and repr agree; copy/pickle cannot recurse in __getattr__.',
              note='Not decided: == being an equivalence for arbitrary user field values.', ref='4 C14'),
- 'C15': dict(technique='symbolic path enumeration of one iteration of the visit/traverse work loops (work stack found by role) + LIFO/reversed, children, identity-dedup, finished-marker and no-recursion rules',
+ 'C15': dict(technique='symbolic path enumeration of one iteration of the visit/traverse work loops (work stack found by role) + LIFO/reversed, children, identity-dedup (only ids, only expandable nodes, every expansion guarded, visited set only grows), finished-marker and no-recursion rules',
              text='Per-iteration rules that give, by induction on the stack, parents-first left-to-right enumeration with identity de-duplication of expandable nodes only and properly nested traverse events.',
              note='Event sequences on concrete trees are not re-derived.', ref='4 C15'),
- 'C16': dict(technique='symbolic path enumeration of _transform and the callback chain + purity (no store rooted at the input), post-order, metadata-guard and order rules; _replace rule shared with C14',
+ 'C16': dict(technique='symbolic path enumeration of _transform and the callback chain + purity (no store rooted at the input), post-order, metadata-guard (and: new objects start with empty metadata) and order rules; _replace rule shared with C14 (built through the class, fill decided by `field not in kw` alone)',
              text='Post-order rebuild, identity-based change detection, element-wise lists, unchanged leaves, no mutation of the input, guarded metadata copy, callbacks in order.',
              note='Not decided: exactly-once when callbacks alias nodes.', ref='4 C16'),
- 'C17': dict(technique='effect rule "may suspend" on spill helpers emitted for a deep-nesting route (both conventions) + free-name closure inside helpers + call-graph cycle check on driver and walkers + no-direct-rule-call rule',
+ 'C17': dict(technique='effect rule "may suspend" on spill helpers emitted for a deep-nesting route (both conventions) + free-name closure inside helpers + context-parameter rule + allocation log of the real CodeBuilder during route emission (a temporary handed out k times lives in k functions; one rule per nesting depth crosses every block-budget threshold) + call-graph cycle check on driver and walkers, no structural hashing/comparison of nodes inside them + no-direct-rule-call rule',
              text='Helpers whose body suspends are generators delegated to with yield from and return the register triple; callers assign exactly the triple; helpers get every name they read; rule recursion only through requests; driver/walkers cycle-free.',
              note='Not decided: memory limits, CPython nesting limits.', ref='4 C17'),
- 'C18': dict(technique='lexical scope resolution of every store/mutation root in all functions of the emitted runtimes, emitted route modules, shipped parser, grammar.py, translator.py, expressions/*.py; mutable-default and decorator rules; per-call locals rule on the driver',
+ 'C18': dict(technique='lexical scope resolution of every store/mutation root in all functions of the emitted runtimes, emitted route modules, shipped parser, grammar.py, translator.py, expressions/*.py; mutable-default and decorator rules; per-call locals rule on the driver; parent-readonly rule on sub-grammar modules',
              text='Nothing written inside a function outlives the call except through one named exception (sys.modules in _install_module); memo/stack are per-call locals; emitted rule code stores only through locals.',
              note='Thread scheduling itself is not modelled (nothing is shared).', ref='4 C18'),
- 'C19': dict(technique='evaluation of translator._create_parsing_expression by the ast interpreter on both syntax trees of each documented spelling pair, canonical comparison; precedence tags of the shipped Expr table vs. documented order',
+ 'C19': dict(technique='evaluation of translator._create_parsing_expression by the ast interpreter on both syntax trees of each documented spelling pair, canonical comparison - 91 pairs incl. compositional ones (operator applied to a repetition/option/choice/sequence operand) and name/zero bounds; precedence tags of the shipped Expr table vs. documented order',
              text='Translator half: both spellings of every pair build the same expression object; Expr rows are tagged in the documented order, binary rows left-associative.',
              note='Not decided: lexical alternatives of the metagrammar (input-level behaviour of the generated parser).', ref='4 C19'),
- 'C20': dict(technique='computed namespace tables: temporaries per scope (out.var bases), bare-name global/builtin reads (symbol tables of emitted modules), reserved class-body names, intercepted names; every user-space instance must be listed',
+ 'C20': dict(technique='computed namespace tables: identifiers stored by the emitted skeletons of every class configuration and by route modules that the configuration did not choose (per scope), bare-name global/builtin reads (symbol tables of emitted modules), reserved class-body names, intercepted names, user keywords spread into module functions, invented module-level names vs. the namespaces derived from user names, keywords of the shipped metagrammar parser matched as bare literals; every user-space instance must be listed',
              text='Every generated identifier that can meet a user identifier is enumerated from the source; the instances existing today are recorded as known findings, any new one is a violation.',
              note='All current instances are genuine collisions (probes under findings/probes).', ref='4 C20'),
 }
